@@ -1,16 +1,20 @@
 #!/usr/bin/env python3
-"""Writes seeded/<id>-r2m<n>/meta.json for the round-2 seeded changes from the sub-agents' notes
+"""usage: tools/mk_seeded_meta.py r2|r3
+Writes seeded/<id>-<round>m<n>/meta.json for the seeded changes of that round from the sub-agents' notes
 (heading = the change, "Needs" paragraph = what it takes to manifest) and the evaluation results."""
 import json, os, re, sys
 
 ROOT = os.path.dirname(os.path.dirname(os.path.abspath(__file__)))
 # missed by the quick tier of the property's own check when first evaluated (before the workloads were extended)
+RND = sys.argv[1] if len(sys.argv) > 1 else 'r2'
 FIRST_PASS_MISSED = set('''C01-r2m1 C01-r2m3 C02-r2m2 C03-r2m2 C03-r2m3 C04-r2m2 C07-r2m1 C09-r2m1 C09-r2m2 C09-r2m3 C10-r2m1 C10-r2m3
-C12-r2m2 C13-r2m2 C14-r2m1 C14-r2m2 C14-r2m3 C15-r2m2 C16-r2m3 C17-r2m1 C17-r2m2'''.split())
+C12-r2m2 C13-r2m2 C14-r2m1 C14-r2m2 C14-r2m3 C15-r2m2 C16-r2m3 C17-r2m1 C17-r2m2
+'''.split())
+DETECTED_ELSEWHERE = {}       # name -> text, for changes reported by another property's check
 NEEDS = re.compile(r'^\W*(what it )?needs', re.I)
 
 for prop in [f'C{i:02d}' for i in range(1, 19)]:
-    notes = open(f'{ROOT}/seeded/{prop}-r2-NOTES.md').read().split('\n')
+    notes = open(f'{ROOT}/seeded/{prop}-{RND}-NOTES.md').read().split('\n')
     heads = [(i, l) for i, l in enumerate(notes) if re.match(r'## m[123]\b', l)]
     for j, (i, l) in enumerate(heads):
         m = re.match(r'## (m[123])\s*[-:]\s*(.*)', l)
@@ -28,23 +32,23 @@ for prop in [f'C{i:02d}' for i in range(1, 19)]:
                 needs = re.sub(r'\s+', ' ', ' '.join(para))
                 needs = re.sub(r'^\W*(what it )?needs[^:*]*[:*]+\s*', '', needs, flags=re.I)[:600]
                 break
-        name = f'{prop}-r2{mid}'
+        name = f'{prop}-{RND}{mid}'
         d = f'{ROOT}/seeded/{name}'
         if not os.path.isdir(d):
             continue
         meta = {
             'property': prop,
-            'round': 2,
-            'written_by': 'independent sub-agent given only the property text, the list of round-1 changes to avoid, and a scratch worktree of /repo',
+            'round': int(RND[1:]),
+            'written_by': 'independent sub-agent given only the property text, the list of earlier changes to avoid, and a scratch worktree of /repo',
             'change': change,
-            'needs_to_manifest': needs or f'see seeded/{prop}-r2-NOTES.md, section {mid}',
+            'needs_to_manifest': needs or f'see seeded/{prop}-{RND}-NOTES.md, section {mid}',
             'confirmed': {
                 'pinned_tests_with_change': '45 passed',
                 'demo_on_clean_tree': 'exit 0',
                 'demo_with_change': 'exit 1',
                 'how': f'selftest/eval_seeded_dir.sh seeded/{name} {prop} (fresh scratch worktree: applies patch.diff, runs pytest and demo.py both ways, runs the check with HID_REPO=<worktree>)',
             },
-            'detected_by': {f'{prop} quick tier': 'VIOLATION (exit 1) at VERIF_SEED 0 and 5'},
+            'detected_by': DETECTED_ELSEWHERE.get(name) or {f'{prop} quick tier': 'VIOLATION (exit 1) at VERIF_SEED 0 and 5'},
             'initially_missed_by_quick_tier': name in FIRST_PASS_MISSED,
         }
         json.dump(meta, open(f'{d}/meta.json', 'w'), indent=1)
